@@ -4,8 +4,9 @@ TTFonts (FontBuilder + feaLib, in memory) and a DesignSpaceDocument whose source
 The abstract designspace gives the axes (user triple, map knots), the master design locations, and
 per master two small item values: item 1 (supplied by every master) and item 2 (absent in a sparse
 master).  Every real quantity of a master is  base + coefficient * item value + noise  (all chosen by
-a case-seeded random.Random), so masters are compatible by construction and values are not linear
-in the location:
+a case-seeded random.Random; |coefficient| <= 15, |noise| <= 30, so that no two outline points, whose base
+positions are at least 200 apart, can meet), so masters are compatible by construction and values are
+not linear in the location:
 
   item 1 (every master):  glyph A outline and advance, composite glyph D (TrueType), OS/2 and hhea metrics
   item 2 (non-sparse):    glyph B and the mark glyph outlines and advances, the kerning pairs, the
@@ -49,7 +50,7 @@ class Values:
         self.vals = vals  # per master: (v1, v2 or None)
         self.slots = {}
 
-    def get(self, slot, group, base, m, spread=20, noise=9):
+    def get(self, slot, group, base, m, spread=15, noise=30):
         if slot not in self.slots:
             rng = self.rng
             self.slots[slot] = (rng.randint(-spread, spread), [rng.randint(-noise, noise) for _ in self.vals])
